@@ -183,6 +183,8 @@ fn rg_fallback(budget: u8, foreign_kinds: bool) {
         let node = list_h::local_node(l).unwrap();
         havoc_occupancy(l);
         list_h::set_generation(l, g);
+        // any number of writers are in the middle of walking my node, suspended for ever
+        list_h::poke_active_writers(node, nd::below(3) as usize);
         env::install(&storage, node, helper, budget);
         env().allow_foreign_kind = foreign_kinds;
         let sa = &storage as *const _ as usize;
